@@ -27,7 +27,9 @@ inductive Tok
 inductive Fault | outOfBounds | nullDeref
   deriving DecidableEq, Repr
 
-/-- `atoi` on the grammar's value strings: optional blanks, optional sign, decimal digits (values that fit an `int`) -/
+/-- the number `mode_number` (valget/getopts.cpp, repair F9) reads from a value string: optional blanks, optional sign, decimal digits, as
+    `strtol`; a value that does not fit an `int` is invalid there (−1) — here the unbounded integer, which the range checks reject just the same
+    (before F9 `atoi` truncated such values modulo 2³², so that 4294967297 passed as mode 1) -/
 def atoi (s : Bytes) : Int :=
   let s := s.dropWhile fun c => c = 32 ∨ (9 ≤ c.toNat ∧ c.toNat ≤ 13)
   let (neg, s) := match s with
